@@ -424,6 +424,13 @@ class SSHTransportBase(protocol.Protocol):
         to send them while a key exchange is in progress.  When the key
         exchange completes, another attempt is made to send these messages.
 
+    @ivar _newKeysSent: C{True} from the moment our own I{NEWKEYS} message has
+        been sent during a key exchange until the peer's I{NEWKEYS} message
+        arrives.  The peer decodes everything which follows our I{NEWKEYS}
+        with the new keys, but they only become L{currentEncryptions} when
+        the peer's I{NEWKEYS} arrives, so nothing at all is sent in between:
+        every message is held back in L{_blockedByKeyExchange}.
+
     @ivar _peerSupportsExtensions: a boolean indicating whether the other side
         of the connection supports RFC 8308 extension negotiation.
 
@@ -495,6 +502,7 @@ class SSHTransportBase(protocol.Protocol):
     # The current key exchange state.
     _keyExchangeState = _KEY_EXCHANGE_NONE
     _blockedByKeyExchange = None
+    _newKeysSent = False
 
     # Added to key exchange algorithms by a client to indicate support for
     # extension negotiation.
@@ -580,6 +588,7 @@ class SSHTransportBase(protocol.Protocol):
         self.sendPacket(MSG_KEXINIT, self.ourKexInitPayload[1:])
         self._keyExchangeState = self._KEY_EXCHANGE_REQUESTED
         self._blockedByKeyExchange = []
+        self._newKeysSent = False
 
     def _allowedKeyExchangeMessageType(self, messageType):
         """
@@ -620,7 +629,12 @@ class SSHTransportBase(protocol.Protocol):
         @type payload: L{str}
         """
         if self._keyExchangeState != self._KEY_EXCHANGE_NONE:
-            if not self._allowedKeyExchangeMessageType(messageType):
+            # Once our NEWKEYS is out the peer expects the new keys, which we
+            # only start using when its NEWKEYS arrives: until then even the
+            # messages which are allowed during key exchange have to wait.
+            if self._newKeysSent or not self._allowedKeyExchangeMessageType(
+                messageType
+            ):
                 self._blockedByKeyExchange.append((messageType, payload))
                 return
 
@@ -1227,6 +1241,7 @@ class SSHTransportBase(protocol.Protocol):
             outs, ins = ins, outs
         self.nextEncryptions.setKeys(outs[0], outs[1], ins[0], ins[1], outs[2], ins[2])
         self.sendPacket(MSG_NEWKEYS, b"")
+        self._newKeysSent = True
 
     def _newKeys(self):
         """
@@ -1242,6 +1257,7 @@ class SSHTransportBase(protocol.Protocol):
         if self.incomingCompressionType == b"zlib":
             self.incomingCompression = zlib.decompressobj()
 
+        self._newKeysSent = False
         self._keyExchangeState = self._KEY_EXCHANGE_NONE
         messages = self._blockedByKeyExchange
         self._blockedByKeyExchange = None
